@@ -260,5 +260,8 @@ func Run(c Val) Val {
 	out := L(L(consV...), I(int64(rc)), Bo(media.VerifStatus(s) == media.StreamOK), I(pp), I(int64(todo)), I(kp))
 	ctl.Finish()
 	s.Close()
+	// let the goroutines of this stream run to their end before the next case installs its controller:
+	// they carry the same consumer ids and would be taken for the next case's threads
+	ctl.Settle()
 	return out
 }
